@@ -6,7 +6,7 @@ import Haiway.Bridge.ScopeState
     The constructor is `self._state = {type(element): element for element in state}; self._defaults = {}; freeze(self)`.
     The translator rewrites the dict comprehension by its definition (`$dc = {}` / `for element in state: $dc[type(element)] =
     element` / `self._state = $dc`; shape checked syntactically, the comprehension variable must be used nowhere else) and
-    hands over the pieces `<pre>; for …: <body>; <post>` and the whole.  `PreOK`, `StepOK`, `PostOK` are discharged by
+    hands over the pieces `<pre>; for …: <body>; <post>` and the whole.  `PartsOK` (`PreOK`, `StepOK`, `PostOK`; the two stores may come in either order) is discharged by
     evaluating the interpreter on the pieces; `init_of_parts` (committed, induction over the supplied instances) gives: for
     **every** list of instances – any length, repeated types, in any order – the object ends with `_state` = the image of
     `ScopeState.mk` of that list (`foldl insert []`: the last instance of a type wins, at the position of the type's first
@@ -45,10 +45,13 @@ theorem assocSet_insert' (d : List Inst) (t v : Nat) :
     assocSet (d.map fun i => (Val.cls i.ty, Val.obj i.val)) (.cls t) (.obj v)
       = (insert d ⟨t, v⟩).map fun i => (Val.cls i.ty, Val.obj i.val) := assocSet_insert d ⟨t, v⟩
 
-/-- before the loop: the accumulator (local `ld`) is the empty dict; the argument, the fields and the world are untouched -/
-def PreOK (pre : Stmt) (ld : Nat) : Prop :=
+/-- before the loop: the accumulator (local `ld`) is the empty dict; the argument and the world are untouched; the fields
+are untouched too (`b = false`) or `_defaults` has already been given its empty dict here (`b = true`: the two stores of the
+constructor may come in either order around the comprehension) -/
+def PreOK (pre : Stmt) (ld : Nat) (b : Bool) : Prop :=
   ∀ (st : St W), let r := exec ext pre st
-    r.1 = .normal ∧ r.2.loc ld = .dict [] ∧ r.2.loc 0 = st.loc 0 ∧ r.2.fld = st.fld ∧ r.2.world = st.world
+    r.1 = .normal ∧ r.2.loc ld = .dict [] ∧ r.2.loc 0 = st.loc 0 ∧ r.2.world = st.world ∧
+    (if b then r.2.fld 1 = .dict [] else True)
 
 /-- one supplied instance (in local `lv`): stored in the accumulator under **its class**, replacing what was there -/
 def StepOK (body : Stmt) (ld lv : Nat) : Prop :=
@@ -56,12 +59,17 @@ def StepOK (body : Stmt) (ld lv : Nat) : Prop :=
     let r := exec ext body st
     r.1 = .normal ∧ r.2.loc ld = dictOf (insert d (inst st.world n)) ∧ r.2.fld = st.fld ∧ r.2.world = st.world
 
-/-- after the loop: the accumulator becomes `_state`, `_defaults` is a fresh empty dict, the object is frozen once, last -/
-def PostOK (post : Stmt) (ld : Nat) : Prop :=
-  ∀ (v : Val) (st : St W), st.loc ld = v →
+/-- after the loop: the accumulator becomes `_state`, `_defaults` is a fresh empty dict (stored here, or – `b = true` –
+already before the loop), the object is frozen once, last -/
+def PostOK (post : Stmt) (ld : Nat) (b : Bool) : Prop :=
+  ∀ (v : Val) (st : St W), st.loc ld = v → (b = true → st.fld 1 = .dict []) →
     let r := exec ext post st
     r.1 = .normal ∧ r.2.fld 0 = v ∧ r.2.fld 1 = .dict [] ∧
     r.2.world = { st.world with frozen := st.world.frozen ++ [(.obj 4242, v, .dict [])] }
+
+/-- the three pieces fit together (one order of the stores or the other) -/
+def PartsOK (pre body post : Stmt) (ld lv : Nat) : Prop :=
+  ∃ b : Bool, PreOK pre ld b ∧ StepOK body ld lv ∧ PostOK post ld b
 
 def IterOK (it : Expr) : Prop := ∀ (st : St W), eval ext it st = .ok (st.loc 0) st
 
@@ -96,20 +104,24 @@ theorem loop_builds {body : Stmt} {ld lv : Nat} (hb : StepOK body ld lv) (hne : 
 /-- the constructor from its pieces -/
 theorem init_of_parts {whole pre body post : Stmt} {it : Expr} {ld lv : Nat}
     (hshape : whole = .seq pre (.seq (.forEach lv it body) post))
-    (hpre : PreOK pre ld) (hit : IterOK it) (hb : StepOK body ld lv) (hpost : PostOK post ld) (hne : ld ≠ lv) :
+    (hparts : PartsOK pre body post ld lv) (hit : IterOK it) (hne : ld ≠ lv) :
     InitBuilds whole := by
+  obtain ⟨b, hpre, hb, hpost⟩ := hparts
   intro ns w loc fld h0 hfz
   subst hshape
   have hp := hpre ({ loc := loc, fld := fld, world := w } : St W)
   simp only at hp
   generalize hG : exec ext pre ({ loc := loc, fld := fld, world := w } : St W) = G at hp
   obtain ⟨o0, s0⟩ := G
-  obtain ⟨ho, hld, hl0, hf0, hw0⟩ := hp
-  simp only at ho hld hl0 hf0 hw0
+  obtain ⟨ho, hld, hl0, hw0, hf0⟩ := hp
+  simp only at ho hld hl0 hw0 hf0
   subst ho
   have hi := hit s0
   obtain ⟨s1, hrun, hl1, hf1, hw1⟩ := loop_builds hb hne ns [] s0 (by simpa [dictOf] using hld)
-  have hq := hpost (s1.loc ld) s1 rfl
+  have hq := hpost (s1.loc ld) s1 rfl (by
+    intro hbt
+    rw [hf1]
+    simpa [hbt] using hf0)
   simp only at hq
   generalize hQ : exec ext post s1 = Q at hq
   obtain ⟨o2, s2⟩ := Q
